@@ -98,6 +98,9 @@ def judge(stims: list[dict], obs: list[dict], run=None, label: str = "", sketch_
             # the list the transpiler computes and hands to write_project is a request of its own (platformio.ini de-duplicates
             # what it is given): when the two differ, both are held to the specification
             lt.append(L.libs_trace(tid + "c", o["decls"], dict(o, libs=o["collected"])))
+        for n, var in enumerate(o.get("variants", [])):       # the request written for boards of other platforms
+            if sorted(var) != sorted(o["libs"]):
+                lt.append(L.libs_trace(f"{tid}v{n}", o["decls"], dict(o, libs=var)))
         if sketch_sel is None or i in sketch_sel:
             st.append(L.sketch_trace(tid, o))
     if not lt:
@@ -135,6 +138,9 @@ def run_stratum(stims: list[dict], run, label: str, probes: list[bool] | None = 
         v, w = lv[tid], sv.get(tid, {"ok": True, "l": 0, "clause": "", "skipped": True})
         if v["ok"] and not lv.get(tid + "c", v)["ok"]:
             v = lv[tid + "c"]            # the computed list breaks the specification where the ini does not
+        for n in range(len(o.get("variants", []))):
+            if v["ok"] and not lv.get(f"{tid}v{n}", v)["ok"]:
+                v = lv[f"{tid}v{n}"]     # ... or the ini written for another board does
         hit = [k for k in (v.get("known") or [])]
         if hit and not (probes and probes[i]):
             raise MachineryError(f"C14: known-deviation predicate matched outside the probe stratum: {_stim_key(s)}")
